@@ -34,6 +34,9 @@ for pid, fl in [("C01","escape"),("C05","control"),("C07","scope"),("C09","inclu
     PROPS[pid] = evalprop(fl)
     PROPS[pid]["lean_modules"] = [pid]
 
+PROPS["C06"] = evalprop("fields", "Stream 'cache': random struct types built with reflect.StructOf (1-4 fields per struct from a small name pool so names clash, exported and unexported fields, embedded structs and embedded struct pointers nested up to 4 deep) - the index-path table of the real buildCache (hook VerifBuildCache) vs the model's buildCache, plus a direct oracle (every path is valid and leads to a field of that name). Stream 'structs' (direct oracle, no model): a value of such a type with a unique value in every leaf and nil / non-nil embedded pointers; for every field name occurring anywhere in the type and a missing one, '.Name' and '.[\"Name\"]' are rendered: an unambiguous exported name must render exactly the value stored where Go's selector rule (shallowest depth, through embedded structs and pointers) reaches and both spellings must agree; unexported and missing names and paths through nil embedded pointers must be errors; Execute must never panic.")
+PROPS["C06"]["lean_modules"] = ["C06"]
+
 PROPS["C08"] = evalprop("blocks", "Stream 'blocksets' (direct oracle, no model): random acyclic template sets - 2-4 libraries that may import earlier libraries, a layout, an optional middle layout extending it, 1-3 leaves extending either or standing alone, import lists in random order, overlapping definitions of four block names incl. nested definitions (inside other blocks, if, range), parameters with defaults, yields with named arguments in either order or omitted, caller content and default content that print a caller-scope variable the block body shadows; all templates are parsed in a random order in ONE Set and then each is executed; the expected bytes of every template are computed by the generator from the precedence rule. Stream 'tables': effective block table (name -> defining template, line) of every template, real parser vs the model's table construction. Each template of a set also runs through the evaluator model (stream 'eval').")
 PROPS["C08"]["lean_modules"] = ["C08"]
 
@@ -116,6 +119,11 @@ MANIFEST_TEXT = {
         "level": "Lean 4 theorems: Runtime.isSet, Arguments.IsSet and the isset built-in with >= 1 argument never produce an error or runtime panic, for every expression, data and fuel; zero values are set, nil values are not; a piped argument is judged by its value. Tie: differential execution over access paths valid/invalid at every depth, direct and piped; constructive oracle.",
         "note": "Exactness (true iff every step exists) is covered by correspondence against the implementation and the oracle, not yet by a theorem against an independent existence spec.",
         "technique": "Lean 4 proof about the evaluator model + differential correspondence + constructive direct oracle",
+    },
+    "C06": {
+        "level": "Lean 4 theorems: for every struct type (any fields, any nesting of embedded structs, any name clashes) every entry name -> path of the model of buildCache leads through exported embedded structs to an exported field of that name (buildCache_sound, induction on embedding depth and on the field loop), and a struct's own field is never hidden by a promoted one (direct_field_wins); on the evaluator model's resolveIndex: a.b agrees with a[\"b\"] on maps and structs, absent map keys yield nil, present entries and slice elements are returned as stored, out-of-range/negative indexes, missing fields and nil pointers are errors. Tie: the real buildCache (hook) vs the model on random reflect.StructOf types; differential execution of access-heavy programs; a direct oracle comparing '.F' / '.[\"F\"]' on generated struct values with Go's own selector rule.",
+        "note": "Method lookup (value/pointer receivers) is exercised through C14's forms stream, not modelled. The cache validation against reflect.FieldByName added by the D43 fix is outside the model (the hook exposes the raw builder); its effect is covered by the struct-access oracle.",
+        "technique": "Lean 4 proof (induction) about a hand-written model + differential correspondence via a build-tagged hook + direct oracle against Go's reflect",
     },
     "C08": {
         "level": "Lean 4 theorems: for every extends table, import list and own definition list the effective block table resolves a name to the template's own last-registered definition, else the latest import that has it, else the extended chain (precedence, by induction over the addBlocks folds; tables have one entry per name); along the links of any template set (tableOf_precedence); an execution runs the root ancestor's body with the executed template's table and top-level lookups go to that table. Tie: block tables of the real parser vs the model on random template sets; differential execution; a constructive oracle that executes every template of a set after parsing them in a random order in one Set.",
